@@ -9,7 +9,7 @@ EXTENDS CliPool, TLC, Json
 VARIABLES di, ei, fi
 vars == <<di, ei, fi>>
 
-Init == di \in 1..Len(Docs) /\ ei \in 1..Len(Exprs) /\ fi \in 0..Len(Frags)     \* fi = 0: an xq run
+Init == di \in 1..Len(Docs) /\ ei \in 1..Len(Exprs) /\ fi \in 0..Len(Frags) /\ RunsOn(di, ei)     \* fi = 0: an xq run
 Next == UNCHANGED vars
 Spec == Init /\ [][Next]_vars
 
@@ -24,9 +24,10 @@ InvDocsOk == TreeOk(D)
 
 Case ==
   IF fi = 0
-  THEN [k |-> "xq", di |-> di, ei |-> ei, fi |-> 0, text |-> Ser(D), tree |-> D, expr |-> ExprText(ei), value |-> V]
+  THEN [k |-> "xq", di |-> di, ei |-> ei, fi |-> 0, text |-> Ser(D), tree |-> D, expr |-> ExprText(ei), value |-> V,
+        setns |-> SetnsOf(ei)]
   ELSE [k |-> "xe", di |-> di, ei |-> ei, fi |-> fi, text |-> Ser(D), tree |-> D, expr |-> ExprText(ei),
-        frag |-> Frags[fi].text, usable |-> XeUsable(D, V, Frags[fi]),
+        frag |-> Frags[fi].text, usable |-> XeUsable(D, V, Frags[fi]), setns |-> SetnsOf(ei),
         expect |-> IF V.t = "nodes" THEN XeExpect(D, V, Frags[fi]) ELSE <<>>]
 
 InvEmit == PrintT(<<"REPLAY", ToJson(Case)>>)
